@@ -11,6 +11,10 @@ from units import UNITS  # noqa: E402
 # obligations of the dependent property too (a changed limb kernel invalidates the composition)
 DEP_MODULES = {
     "C06": ["CxVerif.Props.C05.KernelTie"], "C07": ["CxVerif.Props.C05.KernelTie"], "C09": ["CxVerif.Props.C05.KernelTie"],
+    "C12": ["CxVerif.Props.C15.KernelTieFe64"],
+    "C13": ["CxVerif.Props.C15.KernelTieFe64", "CxVerif.Props.C15.KernelTieScalar64"],
+    "C14": ["CxVerif.Props.C15.KernelTieFe64", "CxVerif.Props.C15.KernelTieScalar64"],
+    "C17": ["CxVerif.Props.C15.KernelTieFe64", "CxVerif.Props.C15.KernelTieScalar64"],
 }
 
 
